@@ -72,8 +72,39 @@ def replay_path(pid, verif_seed, res):
     return os.path.join(VERIF, "replays", "%s-%s-%s.json" % (pid, verif_seed, name))
 
 
-def check(pid, tier, verif_seed, repo, nlanes, replay=None, runs=None, wall_cap=None, quiet=False,
-          write_evidence=True, do_min=True):
+def make_scratch():
+    """one scratch directory per check process; runs create their simulated disks inside it, so that runs
+    killed at a wall cap or at the first violation leave nothing behind.  Stale directories of dead
+    processes are removed on the way."""
+    import shutil
+    import tempfile
+    top = os.path.join(tempfile.gettempdir(), "dst_scratch")
+    os.makedirs(top, exist_ok=True)
+    for name in os.listdir(top):
+        try:
+            os.kill(int(name), 0)
+        except (ValueError, ProcessLookupError):
+            shutil.rmtree(os.path.join(top, name), ignore_errors=True)
+        except PermissionError:
+            pass
+    base = os.path.join(top, str(os.getpid()))
+    os.makedirs(base, exist_ok=True)
+    os.environ["TMPDIR"] = base
+    tempfile.tempdir = base
+    return base
+
+
+def check(pid, tier, verif_seed, repo, nlanes, **kw):
+    import shutil
+    base = make_scratch()
+    try:
+        return _check(pid, tier, verif_seed, repo, nlanes, **kw)
+    finally:
+        shutil.rmtree(base, ignore_errors=True)
+
+
+def _check(pid, tier, verif_seed, repo, nlanes, replay=None, runs=None, wall_cap=None, quiet=False,
+           write_evidence=True, do_min=True):
     prop = load_prop(pid)
     t0 = time.time()
     repo = runner.load_repo(repo)
@@ -309,7 +340,7 @@ def check(pid, tier, verif_seed, repo, nlanes, replay=None, runs=None, wall_cap=
     for l in lines:
         print(l)
     sys.stdout.flush()
-    check.last = {"agg": agg, "violations": violations, "rc": rc, "replay": replay_file, "nres": nres}
+    _check.last = {"agg": agg, "violations": violations, "rc": rc, "replay": replay_file, "nres": nres}
     return rc
 
 
